@@ -9,10 +9,18 @@
   The model is executable and total.  The nondeterminism of the real loop
   (which answer the `select` sees next, and when the context ends) is the
   *input*: a list of `Arrival`s in the order in which the loop consumes them.
-  The two decisions that are read from the source tree on every run (tier T1)
-  are parameters: `Params.exhausted` (the exhaustion test) and
+  The decisions that are read from the source tree on every run (tier T1)
+  are parameters: `Params.exhausted` (the exhaustion test),
   `Params.preCheck` (is the exhaustion test evaluated before the first
-  `select`, i.e. does a call that targets no node at all terminate).
+  `select`, i.e. does a call that targets no node at all terminate) and
+  `Params.ctxCause` (does the exhaustion branch report the context's error
+  when the context has ended — `incompleteCause(ctx)`, errors.go).
+
+  The end of the context is one event of the history.  The loop notices it
+  either in its `select` (the event is consumed) or, when all targeted nodes
+  have answered, in the exhaustion branch, which consults `ctx.Err()`: in the
+  model the branch sees an ended context exactly when the context's end is
+  the next event of the history.
 -/
 namespace GorumsV.ReplyLoop
 
@@ -40,10 +48,12 @@ structure Params where
   exhausted : (nErrs nReplies expected : Nat) → Bool
   /-- is the exhaustion test evaluated before the first `select`? -/
   preCheck : Bool
+  /-- does the exhaustion branch report `ctx.Err()` when the context has ended? -/
+  ctxCause : Bool
 
 /-- The parameters the property needs. -/
 def Params.Good (P : Params) : Prop :=
-  (∀ e r x, P.exhausted e r x = decide (e + r = x)) ∧ P.preCheck = true
+  (∀ e r x, P.exhausted e r x = decide (e + r = x)) ∧ P.preCheck = true ∧ P.ctxCause = true
 
 structure St (M E : Type) where
   errs : List (NodeId × E) := []
@@ -59,6 +69,14 @@ inductive Outcome (R E : Type) where
 
 variable {M E R : Type}
 
+/-- What the exhaustion branch reports: `QuorumCallError{cause: incompleteCause(ctx), …}`.
+    `rest` is the part of the history that has not been consumed. -/
+def exhaustedOutcome (P : Params) (errs : List (NodeId × E)) (nReplies : Nat)
+    (rest : List (Arrival M E)) : Outcome R E :=
+  match rest with
+  | .ctxDone c :: _ => if P.ctxCause then .ctxErr c errs nReplies else .incomplete errs nReplies
+  | _ => .incomplete errs nReplies
+
 /-- The loop after the (optional) pre-check: consume arrivals one at a time.
     Second component: the quorum function's invocation log (its arguments). -/
 def loop (P : Params) (qf : RepMap M → R × Bool) (expected : Nat) :
@@ -68,7 +86,7 @@ def loop (P : Params) (qf : RepMap M → R × Bool) (expected : Nat) :
   | st, .error n c :: as =>
       let st' : St M E := { st with errs := st.errs ++ [(n, c)] }
       if P.exhausted st'.errs.length st'.replies.length expected then
-        (.incomplete st'.errs st'.replies.length, [])
+        (exhaustedOutcome P st'.errs st'.replies.length as, [])
       else loop P qf expected st' as
   | st, .reply n m :: as =>
       let reps := st.replies.insert n m
@@ -76,7 +94,7 @@ def loop (P : Params) (qf : RepMap M → R × Bool) (expected : Nat) :
       let (v, q) := qf reps
       if q then (.ok v, [reps])
       else if P.exhausted st'.errs.length st'.replies.length expected then
-        (.incomplete st'.errs st'.replies.length, [reps])
+        (exhaustedOutcome P st'.errs st'.replies.length as, [reps])
       else
         let (o, log) := loop P qf expected st' as
         (o, reps :: log)
@@ -85,7 +103,7 @@ def loop (P : Params) (qf : RepMap M → R × Bool) (expected : Nat) :
     handed to the node channels. -/
 def run (P : Params) (qf : RepMap M → R × Bool) (expected : Nat)
     (as : List (Arrival M E)) : Outcome R E × List (RepMap M) :=
-  if P.preCheck && P.exhausted 0 0 expected then (.incomplete [] 0, [])
+  if P.preCheck && P.exhausted 0 0 expected then (exhaustedOutcome P [] 0 as, [])
   else loop P qf expected {} as
 
 /-! ### The future of an asynchronous call (async.go) -/
